@@ -90,6 +90,7 @@ func checkC09(e *Engine, r *Report) {
 		"R13 error-path undo (supply.Allocate / AllocateCPU / Reserve release the CPU accounting on later failure; balloons undo a new balloon that cannot be used)",
 		"R2 stopped-never-readmitted: every container collection reaching the `add` argument of a policy Sync, across function boundaries, is built only from elements filtered by GetState() in {Created, Running}; every AllocateResources argument is the container being created, an element of Sync's add list, or the subject of an update",
 		"R5 ledger symmetry (shared with C03): what an admission adds to grantedShared/grantedReserved is what the release subtracts",
+		"round 4: undo() of a trial balloon reaches a store freeCpus = freeCpus ∪ (that balloon's CPUs) (calls through the local slice of closures resolved); R14b propagated failures of the two policy packages (frozen caller/callee table)",
 	}
 	r.NotDecided = []string{"equality of the final state with the pristine one (value-level)", "UpdateContainer for a container that already exited (allowed source (d), residual risk)"}
 	r.Assumptions = []string{"the runtime sends StopContainer before RemoveContainer for every container that was created"}
